@@ -142,6 +142,11 @@ def runOnly (s : Bool) : Heap δ → List (Step δ) → Heap δ
   | h, [] => h
   | h, w :: ws => if w.side = s then runOnly s (set h w.addr w.obj) ws else runOnly s h ws
 
+/-- all writes of a history, whoever performs them -/
+def writeAll : Heap δ → List (Step δ) → Heap δ
+  | h, [] => h
+  | h, w :: ws => writeAll (set h w.addr w.obj) ws
+
 /-- separation of the two sides -/
 def sepB (st : St δ) : Bool :=
   closedB st.heap st.sa && closedB st.heap st.sb && disjointB st.sa st.sb
